@@ -190,6 +190,16 @@ func withCrash(base func(string, uint64) []Job, prop string, quick, thorough int
 
 func noJobs(string, uint64) []Job { return nil }
 
+func withWindow(base func(string, uint64) []Job, prop string) func(string, uint64) []Job {
+	return func(tier string, seed uint64) []Job {
+		js := base(tier, seed)
+		for i := 0; i < 4; i++ {
+			js = append(js, Job{Engine: "window", Profile: prop, Seed: seed, Case: i})
+		}
+		return js
+	}
+}
+
 func concCfg(prop string, cas int, tier string) ConcCfg {
 	c := ConcCfg{Name: prop, Hist: 25, Clients: 3 + cas%2, OpsPer: 4 + cas%3, BigFile: cas%2 == 1, Unstable: cas%5 != 4, RPC: cas%4 == 2,
 		Yield: cas%6 != 5, LowChild: cas%3 != 2, Procs: []int{2, 4, 16}[cas%3]}
@@ -243,6 +253,14 @@ func dispatch(job Job) *JobRes {
 		return seqJob(job)
 	case "crash":
 		return crashJob(job)
+	case "window":
+		return windowJobRes(runWindow(job.Seed, job.Case, job.Tier))
+	case "ccrash":
+		mon.Off()
+		r := runCCrash(job.Seed, job.Case, job.Tier)
+		out := &JobRes{Viol: r.Viol, Evals: r.Images, Counters: Counter{"concurrent_histories": r.Histories, "concurrent_crash_images": r.Images, "concurrent_images_nontrivial": r.NonTrivial, "stable_acks_overlapping_another_clients_write": r.Overlaps}, Distinct: sortedKeys(r.Keys)}
+		out.Samples = []interface{}{r.Sample}
+		return out
 	case "probe04":
 		return probeC04()
 	case "hostile":
@@ -424,9 +442,9 @@ func propSpecs() map[string]PropSpec {
 	add(PropSpec{ID: "C05", Level: "exploration", Classes: []string{"leak", "crash"},
 		Rule: "build-then-delete sequences; conservation (marked = reachable, allocators = bitmaps, no half-freed inode) at shrinker-idle quiescence every 6 ops, after restarts, and after deleting everything; distinct = distinct on-disk state hashes checked",
 		Plan: withConc(withCrash(seqPlan("C05", 32, 600), "C05", 4, 60), "C05", 24, 300, false)})
-	add(PropSpec{ID: "C08", Level: "exploration", Classes: []string{"handle", "reply", "crash"},
+	add(PropSpec{ID: "C08", Level: "exploration", Classes: []string{"handle", "reply", "crash", "lin"},
 		Rule: "inode-reuse-heavy sequences with restarts; every handle bound to one object; a pool of dead handles presented to every procedure and handle position; distinct = distinct (procedure, outcome, argument class) triples incl. deadprobe (procedure, position, reused?) classes",
-		Plan: seqPlan("C08", 32, 600)})
+		Plan: withWindow(seqPlan("C08", 32, 600), "C08")})
 	add(PropSpec{ID: "C09", Level: "exploration", Classes: []string{"afterfail", "crash"},
 		Rule: "sequences on nearly-full disks of five sizes; after every failing RPC: free block/inode counts unchanged, whole tree = reference (in which the op never happened), fsck + cache/disk coherence; distinct = distinct (procedure, outcome, argument class) triples in sequences where a failing transaction had dirtied state",
 		Plan: seqPlan("C09", 30, 600)})
@@ -441,10 +459,20 @@ func propSpecs() map[string]PropSpec {
 		Plan: withCrash(noJobs, "C01", 8, 150)})
 	add(PropSpec{ID: "C07", Level: "fault_enumeration", Classes: []string{"crash", "verf"},
 		Rule: "write-heavy workloads over several files mixing UNSTABLE/DATA_SYNC/FILE_SYNC, COMMIT and metadata operations, Unstable option on/off, clean restarts without flush; every prefix cut + lossy cuts recovered: state must be a reference prefix >= everything acknowledged stable (loss only as a suffix); every WRITE/COMMIT reply checked for committed level and verifier (constant per instance, different across instances); distinct as C01",
-		Plan: withCrash(noJobs, "C07", 8, 150)})
+		Plan: func(tier string, seed uint64) []Job {
+			js := withCrash(noJobs, "C07", 8, 150)(tier, seed)
+			n := 8
+			if tier == "thorough" {
+				n = 60
+			}
+			for i := 0; i < n; i++ {
+				js = append(js, Job{Engine: "ccrash", Profile: "C07", Seed: seed, Case: i})
+			}
+			return js
+		}})
 	add(PropSpec{ID: "C03", Level: "exploration", Classes: []string{"lin", "crash", "hang", "deadlock"},
 		Rule: "short histories (3-4 clients x 4-6 conflicting RPCs on shared names/files/directories, big file freed by the shrinker in the window, cold caches, children numbered below their directories) recorded at the client boundary with one atomic clock and checked by porcupine against the reference model, the final tree included as a read; schedules widened by seeded yields at lock/commit hooks and disk calls, GOMAXPROCS 2/4/16; distinct = distinct fingerprints of the global (hook site, client, inode) event sequence, counted only if some history had a contended acquire or an abort-and-relock",
-		Plan: withConc(noJobs, "C03", 48, 800, false)})
+		Plan: withWindow(withConc(noJobs, "C03", 48, 800, false), "C03")})
 	add(PropSpec{ID: "C06", Level: "exploration", Classes: []string{"deadlock", "hang", "crash"},
 		Rule: "every inode-lock request is observed with the locks its transaction holds: (a) single-threaded census over every parent/child pair of trees whose children are numbered both below and above their directories (LOOKUP incl. '.'/'..', READDIR/READDIRPLUS, CREATE/REMOVE, RENAME within/across directories, over existing targets, coinciding inodes, aliased and dead handles; warm and cold caches), (b) concurrent stress with the wait-for detector armed and seeded yields; violations: self-wait, wait-for cycle (both detected before blocking), cycle in the accumulated lock-order graph, transaction abandoned with locks held, > 1000 begin/abort cycles without any commit, wedged server; distinct = distinct (call site, ascending/descending) edge classes and distinct interleaving fingerprints",
 		Plan: func(tier string, seed uint64) []Job {
@@ -456,7 +484,7 @@ func propSpecs() map[string]PropSpec {
 			for i := 0; i < n; i++ {
 				js = append(js, Job{Engine: "census", Profile: "C06", Seed: seed, Case: i})
 			}
-			return withConc(func(string, uint64) []Job { return js }, "C06", 32, 600, false)(tier, seed)
+			return withWindow(withConc(func(string, uint64) []Job { return js }, "C06", 32, 600, false), "C06")(tier, seed)
 		},
 		Assume: []string{"no gate locks: every other mutex is a leaf taken while inode locks are held (true for this code base)", "fresh (just allocated, free) inodes are exempt from the order: nobody can hold a free inode while waiting for another lock"}})
 	add(PropSpec{ID: "C14", Level: "exploration", Classes: []string{"race", "crash", "hang"},
